@@ -29,6 +29,8 @@ var c14Params = []string{
 	"server_max_window_bits=8", "server_max_window_bits=14", "server_max_window_bits=15",
 	"server_max_window_bits", "server_max_window_bits=abc", "server_max_window_bits=7", "server_max_window_bits=16",
 	"frobnicate", "x_unknown=1",
+	// the two flags take no value (RFC 7692 section 7.1.1): with one they are malformed
+	"server_no_context_takeover=0", "client_no_context_takeover=false", "client_no_context_takeover=",
 }
 
 // exchangeMsgs: later messages repeat earlier content, so a sender with context
@@ -256,7 +258,7 @@ func runC14Server(t fataler, c c14ServerCase) (string, c14Outcome) {
 
 func TestC14Server(t *testing.T) {
 	rec := evid.For("C14")
-	rec.Rule = "server: every single offer with 0-3 parameters from a 19-element RFC 7692 alphabet (both no_context_takeover flags, client/server_max_window_bits without value, with 8..15, with malformed values, unknown parameters) x 3 server modes is enumerated; rapid adds lists of up to 3 offers (duplicates, other extensions, several header lines, odd spacing/case). client: server responses over the same grammar x 3 client modes. library<->library: all 3x3 mode pairs. After EVERY successful handshake a six-message exchange runs in both directions with the reference peer applying the parameters as the RFC reads the response (later messages repeat earlier content, so takeover really back-references). Non-trivial: an asymmetric agreement, a fallback to a later offer, or a declined offer. distinct = (parameter multiset, mode, outcome)."
+	rec.Rule = "server: every single offer with 0-3 parameters from a 22-element RFC 7692 alphabet (both no_context_takeover flags, the flags with a value attached, client/server_max_window_bits without value, with 8..15, with malformed values, unknown parameters) x 3 server modes is enumerated; rapid adds lists of up to 3 offers (duplicates, other extensions, several header lines, odd spacing/case). client: server responses over the same grammar x 3 client modes. library<->library: all 3x3 mode pairs. After EVERY successful handshake a six-message exchange runs in both directions with the reference peer applying the parameters as the RFC reads the response (later messages repeat earlier content, so takeover really back-references). Non-trivial: an asymmetric agreement, a fallback to a later offer, or a declined offer. distinct = (parameter multiset, mode, outcome)."
 	var rc c14ServerCase
 	if replayCase(t, &rc) {
 		var msg string
